@@ -313,9 +313,12 @@ def renderFixed (k : Nat) (r : Nat) : Bytes :=
 def siFormat (s k e : Nat) (unit : Bytes) : Bytes :=
   renderFixed k (fixedR k (rnDiv (rnInt s) (10 ^ e))) ++ unit
 
-def siGo (s : Nat) : List (Nat × Nat × Nat × Bytes) → Bytes
+/-- the `if … else if …` cascade; a row marked `true` compares the converted value
+`n = (double) s` with its bound, a row marked `false` the 64-bit integer `s` itself -/
+def siGo (s : Nat) : List (Bool × Nat × Nat × Nat × Bytes) → Bytes
   | [] => siFormat s siLast.1 siLast.2.1 siLast.2.2
-  | (thr, k, e, u) :: rest => if s < thr then siFormat s k e u else siGo s rest
+  | (onDouble, thr, k, e, u) :: rest =>
+    if (if onDouble then rnInt s else s) < thr then siFormat s k e u else siGo s rest
 
 /-- `formatSI(s)` for `0 ≤ s < 2^63` -/
 def formatSI (s : Nat) : Bytes := if s < siIntBelow then decimalNat s else siGo s siTable
